@@ -8,6 +8,8 @@ import tlc
 import la
 
 ASSUME = [
+    "virtual time: a second passes before every step, the launch timeout is 60 s and the Timeout step moves the clock to exactly 60 s "
+    "after the launch",
     "Shutdown: the fake reactor's recorded 'before shutdown' triggers are run by the harness; nothing is observed after it",
     "launch() runs on a fake reactor (spawnProcess returns a process transport that records signals; callLater is a Clock) with a "
     "scripted connection_creator; the control connection is a real TorControlProtocol served by SimTor, which withholds the replies "
